@@ -128,6 +128,51 @@ def exc_name(e):
     return type(e).__name__
 
 
+def dump_graph(builder):
+    """The condition graph the library built for a query, in the shape of spec/EQLMech.tla!Build (Layer B binding)."""
+    import operator as _op
+    from entity_query_language import symbolic as S
+    keys = builder.q.get("varkeys", list(range(1, len(builder.q["vars"]) + 1)))
+    var_index = {id(v): keys.index(k) + 1 for k, v in builder.vars.items() if k in keys}
+    names = {_op.eq: "eq", _op.ne: "ne", _op.lt: "lt", _op.le: "le", _op.gt: "gt", _op.ge: "ge"}
+    pred_names = {"PLt": "p_lt", "PPos": "p_pos"}
+
+    def expr(e):
+        if isinstance(e, S.Literal):
+            return {"k": "lit", "v": world.encode(next(iter(e._domain_)).value, {})}
+        if isinstance(e, S.Attribute):
+            return {"k": "attr", "e": expr(e._child_), "a": e._attr_name_}
+        if isinstance(e, S.Index):
+            return {"k": "idx", "e": expr(e._child_), "key": world.encode(e._key_, {})}
+        if isinstance(e, S.Call):
+            arg = world.encode(e._args_[0], {}) if e._args_ else {"t": "noarg", "v": 0}
+            return {"k": "mcall", "e": expr(e._child_._child_), "m": e._child_._attr_name_, "arg": arg}
+        if isinstance(e, S.Variable) and id(e) in var_index:
+            return {"k": "var", "i": var_index[id(e)]}
+        return {"k": "other:" + type(e).__name__}
+
+    def tree(n):
+        if isinstance(n, S.AND):
+            return {"k": "and", "l": tree(n.left), "r": tree(n.right)}
+        if isinstance(n, S.ElseIf):
+            return {"k": "elif", "l": tree(n.left), "r": tree(n.right)}
+        if isinstance(n, S.Union):
+            return {"k": "union", "l": tree(n.left), "r": tree(n.right)}
+        if isinstance(n, S.Comparator):
+            if n.operation in names:
+                return {"k": "cmp", "op": names[n.operation], "inv": bool(n._invert_), "l": expr(n.left), "r": expr(n.right)}
+            return {"k": "in", "inv": n.operation is not _op.contains, "l": expr(n.left), "r": expr(n.right)}
+        if isinstance(n, S.Variable) and n._predicate_type_:
+            return {"k": "pred", "p": pred_names.get(n._name__, n._name__), "inv": bool(n._invert_),
+                    "args": [expr(v) for v in n._child_vars_.values()]}
+        if isinstance(n, S.DomainMapping):
+            return {"k": "truth", "inv": bool(n._invert_), "e": expr(n)}
+        return {"k": "other:" + type(n).__name__}
+
+    root = builder.query._child_._child_
+    return tree(root) if root is not None else {"k": "none"}
+
+
 def run_query_case(case):
     """Family Q: a world, a list of queries, a list of evaluation events."""
     reset_library()
@@ -154,9 +199,19 @@ def run_query_case(case):
                 [[id(x) for x in d] for b in builders for d in b.domlists])
 
     snap0 = snapshot()
+    if case.get("dump_graph"):
+        try:
+            out["graphs"] = [dump_graph(b) for b in builders]
+        except Exception as e:
+            out["graphs"] = [{"k": "other:dump-failed:" + exc_name(e)} for _ in builders]
+    evaluated = set()
     for ev in case["evs"]:
         rec = dict(ev)
         op = ev["op"]
+        if op == "drain":
+            rec["first"] = ev["qi"] not in evaluated       # first evaluation of this expression object
+        if "qi" in ev:
+            evaluated.add(ev["qi"])
         if op == "cfg":
             (enable_caching if ev["caching"] else disable_caching)()
             out["evs"].append(rec)
